@@ -37,47 +37,56 @@ def run(rep: Report, ctx: Any) -> str:
     rep.require(td, "_to_dict")
 
     # ---- R02.1 -----------------------------------------------------------------------------------------------------
+    # template-bound variables are canonical (sa/jinja_canon.py): the loop variable over the model's properties reads `DOM[*]`
+    dom = "(model.required_properties + model.optional_properties)"
+    pvars = {f"{dom}[*]", "model.optional_properties[*]", "model.required_properties[*]"}
+
+    def strip_pv(t: str) -> str:
+        for v in sorted(pvars, key=len, reverse=True):
+            t = t.replace(v, "<p>")
+        return t
+
     key_sites = []
     for e in ji.emissions.values():
         if e.template != "model.py.jinja":
             continue
-        if e.kind.endswith('STR1"') and e.hole.endswith(".name") and ("property" in e.hole):
+        if e.kind.endswith('STR1"') and e.hole.endswith(".name") and strip_pv(e.hole).startswith("<p>."):
             key_sites.append(e)
     by_place = {}
     for e in key_sites:
         by_place.setdefault((e.macro, e.expr, e.ordinal), e)
     rep.floor("wire_key_sites", len(by_place), 2)
-    exprs = {e.hole for e in by_place.values()}
-    rep.check(exprs == {"property.name"}, "R02.1", "model.py.jinja::wire-key-expression",
+    exprs = {strip_pv(e.hole) for e in by_place.values()}
+    rep.check(exprs == {"<p>.name"}, "R02.1", "model.py.jinja::wire-key-expression",
               f"writers and readers disagree on the wire key: {sorted(exprs)}", where=f"{PKG}/templates/model.py.jinja",
-              lhs=sorted(exprs), rhs=["property.name"])
-    places = {(e.macro, e.expr) for e in by_place.values()}
-    rep.check(("_to_dict", "property.name") in places and any(m == "<top>" and "property_source" in x for m, x in places), "R02.1",
+              lhs=sorted(exprs), rhs=["<property>.name"])
+    places = {(e.macro, strip_pv(e.expr)) for e in by_place.values()}
+    rep.check(("_to_dict", "<p>.name") in places and any(m == "<top>" and "d.pop(" in x for m, x in places), "R02.1",
               "model.py.jinja::both-writers-and-reader", "a writer (to_dict) or the reader (from_dict pops) no longer keys by property.name",
-              where=f"{PKG}/templates/model.py.jinja", lhs=sorted(places), rhs="_to_dict x2 + property_source")
-    # the reader really pops the key: fragments 'd.pop("' + name + '")'
-    pops = [n for n in mt.tree.find_all(nodes.Assign) if isinstance(n.target, nodes.Name) and n.target.name == "property_source"]
+              where=f"{PKG}/templates/model.py.jinja", lhs=sorted(places), rhs="_to_dict x2 + the d.pop(...) source")
+    # the reader really pops the key: fragments 'd.pop("' + name + '")' (the variable holding them may have any name)
+    pops = [n for n in mt.tree.find_all(nodes.Assign) if isinstance(_flatten_add(n.node)[0], nodes.Const) and
+            str(_flatten_add(n.node)[0].value).startswith("d.pop(")]
     rep.floor("pop_forms", len(pops), 2)
     for n in pops:
         txt = expr_text(n.node)
         parts = _flatten_add(n.node)
-        shape = len(parts) == 3 and isinstance(parts[0], nodes.Const) and parts[0].value == 'd.pop("' and expr_text(parts[1]) == "property.name" \
+        shape = len(parts) == 3 and isinstance(parts[0], nodes.Const) and parts[0].value == 'd.pop("' and strip_pv(expr_text(parts[1])) == "<p>.name" \
             and isinstance(parts[2], nodes.Const) and parts[2].value in ('")', '", UNSET)')
         rep.check(shape, "R02.1", f"model.py.jinja::pop[{'optional' if 'UNSET' in txt else 'required'}]",
                   "from_dict does not pop the key written by to_dict", where=f"{PKG}/templates/model.py.jinja:{n.lineno}", lhs=txt,
                   rhs="'d.pop(\"' + property.name + '\"...)'")
     # python side: python_name everywhere; same domain
-    dom = "(model.required_properties + model.optional_properties)"
     loops = [(expr_text(f.iter), f) for f in mt.tree.find_all(nodes.For)]
     prop_loops = [l for l in loops if "properties" in l[0] and "additional" not in l[0]]
     rep.floor("property_loops", len(prop_loops), 6)
     for txt, f in prop_loops:
         ok = txt == dom or (txt == "model.optional_properties" and any(
-            isinstance(x, nodes.If) and expr_text(x.test) == "(not property.required)" for x in f.body))
+            isinstance(x, nodes.If) and expr_text(x.test) == "(not model.optional_properties[*].required)" for x in f.body))
         rep.check(ok, "R02.1", f"model.py.jinja::domain[{txt}]@{_macro_of(mt, f)}",
                   "a loop over the model's properties iterates another domain than required + optional (a property would be written but "
                   "not read, or the reverse)", where=f"{PKG}/templates/model.py.jinja:{f.lineno}", lhs=txt, rhs=dom)
-    kw = [fr for fr in tplq.frags(mt.tree.body) if fr.kind == "expr" and fr.text == "property.python_name" and fr.loops == (dom,)]
+    kw = [fr for fr in tplq.frags(mt.tree.body) if fr.kind == "expr" and fr.text == f"{dom}[*].python_name" and fr.loops == (dom,)]
     rep.check(len(kw) >= 2, "R02.1", "model.py.jinja::constructor-keywords", "cls(...) is not called with python_name=python_name for every property",
               where=f"{PKG}/templates/model.py.jinja", lhs=len(kw), rhs=">= 2 holes in the keyword list")
 
@@ -107,10 +116,13 @@ def run(rep: Report, ctx: Any) -> str:
                       f"construct={has_c}, transform={has_t}: the missing direction silently becomes the identity", where=f"{PKG}/templates/{ti.name}",
                       lhs=[has_c, has_t], rhs=[True, True])
             if has_t and c.name not in ("UnionProperty", "ListProperty"):
-                sets = [expr_text(a.node) for a in ti.macros["transform"].find_all(nodes.Assign) if isinstance(a.target, nodes.Name)
-                        and a.target.name in ("transformed",)]
-                data = "".join(f.text for f in tplq.macro_frags(ti, "transform") if f.kind == "data")
-                converts = any(s not in ("source",) for s in sets) or bool(re.search(r"\}\}?\.\w+\(", data)) or ".to_tuple()" in data or ".value" in "".join(sets)
+                # what is assigned to the destination: the expression emitted right after `<destination> = ` (a canonical set variable
+                # reads as the text of its definition)
+                tf = list(tplq.macro_frags(ti, "transform"))
+                sets = sorted({tf[i + 2].text for i in range(len(tf) - 2) if tf[i].kind == "expr" and tf[i].text == "destination"
+                               and tf[i + 1].kind == "data" and tf[i + 1].text.strip() == "=" and tf[i + 2].kind == "expr"})
+                data = "".join(f.text for f in tf if f.kind == "data")
+                converts = any(s not in ("source", "(source)") for s in sets) or bool(re.search(r"\}\}?\.\w+\(", data)) or ".to_tuple()" in data or ".value" in "".join(sets)
                 rep.check(converts, "R02.3", f"{c.name}::transform-converts", "transform assigns the bare source: a rich Python object would be "
                           "emitted as JSON", where=f"{PKG}/templates/{ti.name}", lhs=sets, rhs="a conversion of the source")
         if "construct_function" in ti.macros:
